@@ -52,21 +52,32 @@ Definition cell_act (s : asg) (t f : nat) : cell :=
 Definition dec_act (s : asg) : tseq :=
   map (fun f => map (fun t => cell_act s t f) (seq 0 (T fb))) (seq 0 (nf fb)).
 
-(** the cell of an implied factor: nothing where the factor does not apply, else the
-    first level whose table accepts the window over the decoded rows of the
-    depended-on (act) factors ([add_implied_levels]) *)
-Definition cell_impl (s : asg) (t f : nat) : cell :=
+(** the cell of an implied factor computed from a sequence [q] that holds the rows it
+    reads: nothing where the factor does not apply, else the first level whose table
+    accepts its window over [q] ([add_implied_levels]) *)
+Definition impl_cell (q : tseq) (t f : nat) : cell :=
   match factor_at fb f with
   | Some fd => match ff_window fd with
                | Some w =>
                  if applies (code_factor fb f fd) t
-                 then find (fun l => accepts (dwin fd w) l (window_args (dec_act s) (code_factor fb f fd) (dwin fd w) t))
+                 then find (fun l => accepts (dwin fd w) l (window_args q (code_factor fb f fd) (dwin fd w) t))
                            (seq 0 (nlevels fb f))
                  else None
                | None => None
                end
   | None => None
   end.
+
+(** the implied rows are filled in design order (an implied factor may read implied factors listed before it) *)
+Definition set_row (q : tseq) (f : nat) (row : list cell) : tseq :=
+  map (fun g => if g =? f then row else nth g q []) (seq 0 (nf fb)).
+
+Definition dec_step (q : tseq) (f : nat) : tseq :=
+  if isact fb f then q else set_row q f (map (fun t => impl_cell q t f) (seq 0 (T fb))).
+
+Definition dec_upto (s : asg) (n : nat) : tseq := fold_left dec_step (seq 0 n) (dec_act s).
+
+Definition cell_impl (s : asg) (t f : nat) : cell := impl_cell (dec_upto s f) t f.
 
 (** does factor [f] have a level in trial [t] *)
 Definition appl (f t : nat) : bool :=
@@ -196,7 +207,7 @@ Qed.
     trial, its dependencies are in [act_design], one level accepts every argument tuple *)
 Lemma implied_facts f : f < nf fb -> isact fb f = false ->
   exists fd w, nth_error (fl_design fb) f = Some fd /\ ff_window fd = Some w /\
-               Forall (fun d => sact fb d = true) (win_deps w) /\
+               Forall (fun d => dep_ok fb f d = true) (win_deps w) /\
                0 < win_width w /\ 0 < win_stride w /\
                (forall k args, k <= win_width w - 1 - win_start w -> In args (all_args_from fb w k) ->
                   length (filter (fun l => accepts (dwin fd w) l args) (seq 0 (nlevels fb f))) = 1).
@@ -320,25 +331,106 @@ Proof.
   split; [|exact Hb]. unfold cell_act. rewrite Hap. now apply find_unique.
 Qed.
 
+(** ** The rows the implied factors are computed from *)
+Lemma set_row_cell q f row g t : g < nf fb ->
+  get_cell (set_row q f row) g t = if g =? f then nth t row None else get_cell q g t.
+Proof.
+  intros Hg. unfold get_cell, set_row. rewrite (nth_map_seq _ (nf fb) g [] Hg). now destruct (g =? f).
+Qed.
+
+Lemma dec_upto_S s n : dec_upto s (S n) = dec_step (dec_upto s n) n.
+Proof. unfold dec_upto. rewrite seq_S, fold_left_app. reflexivity. Qed.
+
+Lemma dec_upto_cell s n : forall g t, g < nf fb -> t < T fb ->
+  get_cell (dec_upto s n) g t = if (g <? n) && negb (isact fb g) then cell_impl s t g else cell_act s t g.
+Proof.
+  induction n as [|n IH]; intros g t Hg Ht.
+  - cbn [Nat.ltb Nat.leb andb]. unfold dec_upto. cbn [seq fold_left]. now apply dec_act_cell.
+  - rewrite dec_upto_S. unfold dec_step. destruct (isact fb n) eqn:En.
+    + rewrite (IH g t Hg Ht). destruct (Nat.eq_dec g n) as [->|Ne].
+      * rewrite En. cbn [negb]. now rewrite !andb_false_r.
+      * replace (g <? S n) with (g <? n); [reflexivity|].
+        destruct (Nat.ltb_spec g n), (Nat.ltb_spec g (S n)); try reflexivity; lia.
+    + rewrite (set_row_cell _ n _ g t Hg). destruct (g =? n) eqn:Eg.
+      * apply Nat.eqb_eq in Eg. subst g. rewrite nth_map_seq by exact Ht.
+        replace (n <? S n) with true by (symmetry; apply Nat.ltb_lt; lia). rewrite En. reflexivity.
+      * apply Nat.eqb_neq in Eg. rewrite (IH g t Hg Ht).
+        replace (g <? S n) with (g <? n); [reflexivity|].
+        destruct (Nat.ltb_spec g n), (Nat.ltb_spec g (S n)); try reflexivity; lia.
+Qed.
+
+(** what a dependency of an implied factor is *)
+Lemma dep_ok_cases f d : isact fb f = false -> dep_ok fb f d = true ->
+  sact fb d = true \/ (isact fb d = false /\ d < f /\ forall t, appl d t = true).
+Proof.
+  intros Ha H. unfold dep_ok in H. apply orb_true_iff in H. destruct H as [H|H]; [now left|right].
+  rewrite Ha in H. cbn [negb andb] in H. rewrite !andb_true_iff in H. destruct H as [[Hd Hlt] Hal].
+  apply negb_true_iff in Hd. apply Nat.ltb_lt in Hlt. split; [exact Hd|]. split; [exact Hlt|].
+  intros t. unfold always_appl in Hal. unfold appl. destruct (factor_at fb d) as [fd|]; [|discriminate].
+  unfold applies. cbn [f_derived code_factor]. destruct (ff_window fd) as [w|]; [|reflexivity].
+  apply andb_true_iff in Hal. destruct Hal as [H0 H1]. apply Nat.eqb_eq in H0, H1. cbn [w_start w_stride].
+  rewrite H0, H1, Nat.mod_1_r. reflexivity.
+Qed.
+
+Lemma dep_lt f d : f < nf fb -> isact fb f = false -> dep_ok fb f d = true -> d < nf fb.
+Proof.
+  intros Hf Ha H. destruct (dep_ok_cases f d Ha H) as [Hs|(_ & Hlt & _)]; [|lia].
+  apply (sact_split fb) in Hs. destruct Hs as [Hd _]. now apply (f1_act_lt fb HF1).
+Qed.
+
+(** the rows an implied factor is computed from hold the cells of its dependencies *)
+Lemma base_reads s f d t : f < nf fb -> isact fb f = false -> dep_ok fb f d = true -> t < T fb ->
+  get_cell (dec_upto s f) d t = cell_of s t d.
+Proof.
+  intros Hf Ha Hd Ht. rewrite (dec_upto_cell s f d t (dep_lt f d Hf Ha Hd) Ht). unfold cell_of.
+  destruct (dep_ok_cases f d Ha Hd) as [Hs|(Hda & Hlt & _)].
+  - apply (sact_split fb) in Hs. destruct Hs as [Hda _]. rewrite Hda. cbn [negb]. now rewrite andb_false_r.
+  - rewrite Hda. cbn [negb]. replace (d <? f) with true by (symmetry; now apply Nat.ltb_lt). reflexivity.
+Qed.
+
+(** the cell computed from any sequence holding those cells is the implied cell *)
+Lemma impl_cell_ext q q' t f fd w :
+  nth_error (fl_design fb) f = Some fd -> ff_window fd = Some w -> sustain_of fb f = 1 ->
+  (forall d t', In d (win_deps w) -> t' <= t -> get_cell q d t' = get_cell q' d t') ->
+  impl_cell q t f = impl_cell q' t f.
+Proof.
+  intros Efd Ew Hsu H. unfold impl_cell, factor_at. rewrite Efd, Ew.
+  destruct (applies (code_factor fb f fd) t); [|reflexivity].
+  now rewrite (window_ext_su1 q q' f fd w t Hsu Ew H).
+Qed.
+
+Lemma cell_impl_char s q t f : f < nf fb -> isact fb f = false -> t < T fb ->
+  (forall d t', dep_ok fb f d = true -> t' <= t -> get_cell q d t' = cell_of s t' d) ->
+  impl_cell q t f = cell_impl s t f.
+Proof.
+  intros Hf Ha Ht H. destruct (implied_facts f Hf Ha) as (fd & w & Efd & Ew & Hdeps & _).
+  unfold cell_impl. apply (impl_cell_ext q (dec_upto s f) t f fd w Efd Ew (impl_sustain f Hf Ha)).
+  intros d t' Hd Ht'. pose proof (proj1 (Forall_forall _ _) Hdeps d Hd) as Hok. cbv beta in Hok.
+  rewrite (base_reads s f d t' Hf Ha Hok ltac:(lia)). apply H; [exact Hok|lia].
+Qed.
+
 (** ... and every implied cell is the level its table derives, where the factor applies *)
-Lemma pcons_cell_impl s t f : Pcons fb s -> t < T fb -> f < nf fb -> isact fb f = false ->
+Lemma pcons_cell_impl s : Pcons fb s -> forall f t, t < T fb -> f < nf fb -> isact fb f = false ->
   if appl f t then exists l, l < nlevels fb f /\ cell_impl s t f = Some l else cell_impl s t f = None.
 Proof.
-  intros H Ht Hf Ha. destruct (implied_facts f Hf Ha) as (fd & w & Efd & Ew & Hdeps & W1 & W2 & Htot).
-  unfold appl, cell_impl, factor_at. rewrite Efd, Ew.
+  intros H f. induction f as [f IHf] using lt_wf_ind. intros t Ht Hf Ha.
+  destruct (implied_facts f Hf Ha) as (fd & w & Efd & Ew & Hdeps & W1 & W2 & Htot).
+  unfold appl, cell_impl, impl_cell, factor_at. rewrite Efd, Ew.
   destruct (applies (code_factor fb f fd) t) eqn:Hap; [|reflexivity].
   assert (Hin : exists k, k <= win_width w - 1 - win_start w /\
-                  In (window_args (dec_act s) (code_factor fb f fd) (dwin fd w) t) (all_args_from fb w k)).
+                  In (window_args (dec_upto s f) (code_factor fb f fd) (dwin fd w) t) (all_args_from fb w k)).
   { apply window_in_su1; try assumption; [now apply impl_sustain|]. intros d t' Hd Ht'.
-    pose proof (proj1 (Forall_forall _ _) Hdeps d Hd) as Hds. cbv beta in Hds.
-    destruct (sact_lappl d t' Hds) as [Hda Hdl].
-    rewrite (dec_act_cell s t' d ltac:(lia) (f1_act_lt fb HF1 d Hda)).
-    destruct (pcons_cell_act s t' d H ltac:(lia) Hda Hdl) as (i & Hi & Ei & _). now exists i. }
+    pose proof (proj1 (Forall_forall _ _) Hdeps d Hd) as Hok. cbv beta in Hok.
+    rewrite (base_reads s f d t' Hf Ha Hok ltac:(lia)). unfold cell_of.
+    destruct (dep_ok_cases f d Ha Hok) as [Hs|(Hda & Hlt & Hal)].
+    - destruct (sact_lappl d t' Hs) as [Hda Hdl]. rewrite Hda.
+      destruct (pcons_cell_act s t' d H ltac:(lia) Hda Hdl) as (i & Hi & Ei & _). now exists i.
+    - rewrite Hda. pose proof (IHf d Hlt t' ltac:(lia) ltac:(lia) Hda) as P. rewrite (Hal t') in P. exact P. }
   destruct Hin as (k & Hk & Hin). specialize (Htot k _ Hk Hin).
-  destruct (find (fun l => accepts (dwin fd w) l (window_args (dec_act s) (code_factor fb f fd) (dwin fd w) t))
+  destruct (find (fun l => accepts (dwin fd w) l (window_args (dec_upto s f) (code_factor fb f fd) (dwin fd w) t))
                  (seq 0 (nlevels fb f))) as [l|] eqn:El.
   - exists l. split; [|reflexivity]. now apply find_in_range in El.
-  - exfalso. assert (E0 : filter (fun l => accepts (dwin fd w) l (window_args (dec_act s) (code_factor fb f fd) (dwin fd w) t))
+  - exfalso. assert (E0 : filter (fun l => accepts (dwin fd w) l (window_args (dec_upto s f) (code_factor fb f fd) (dwin fd w) t))
                                  (seq 0 (nlevels fb f)) = []).
     { apply filter_all_false. intros x Hx. exact (find_none _ _ El x Hx). }
     rewrite E0 in Htot. discriminate.
